@@ -5,14 +5,17 @@ import itertools
 from .. import coqterm as ct
 from ..core import Prop
 
-CTX = "zctx"  # name of the context parameter; never in the vocabularies
+CTX = "zctx"  # default name of the context parameter; never in the vocabularies
+CTX_NAMES = ["zctx", "c", "ctx", "context", "self", "task", "name"]     # the context parameter's name varies
 
 # shared prefixes, underscores, single letters, leading/trailing underscores
 VOCAB10 = ["a", "b", "ab", "abc", "a_b", "ab_c", "_a", "b_", "no_a", "_"]
 VOCAB = VOCAB10 + ["foo", "foo_bar", "f", "bar", "no_foo", "a_b_c", "a__b", "x1", "__x__", "foo_",
                    "o", "n", "no", "ba", "__",
                    # case matters: identifiers and short flags are case-sensitive
-                   "Verbose", "v", "V", "Ab", "aB", "A", "B", "Foo", "F", "No_a"]
+                   "Verbose", "v", "V", "Ab", "aB", "A", "B", "Foo", "F", "No_a",
+                   # names that also occur in invoke's own call path (Task.__call__, Executor, Context)
+                   "context", "self", "args", "kwargs", "task", "name", "type_"]
 
 DEFAULTS = [["E"], ["N"], ["S", "x"], ["S", ""], ["I", 0], ["I", 5], ["B", True], ["B", False],
             ["L", []], ["L", ["p", "q"]],
@@ -38,11 +41,31 @@ def py_default(d):
     return repr(d[1])
 
 
-def source(params):
-    parts = [CTX]
+def pkind(p):
+    return p[2] if len(p) > 2 else None
+
+
+def source(params, ctx=CTX):
+    """params: [name, default] or [name, default, kind] with kind 'po' (positional-only; leading),
+    'va' (*name) or 'vk' (**name; last).  Raises SyntaxError for an impossible layout."""
+    parts = [ctx]
     seen_default = False
     star = False
-    for name, d in params:
+    in_po = False
+    for p in params:
+        name, d, kind = p[0], p[1], pkind(p)
+        if in_po and kind != "po":
+            parts.append("/")
+            in_po = False
+        if kind == "va":
+            parts.append("*" + name)
+            star = True
+            continue
+        if kind == "vk":
+            parts.append("**" + name)
+            continue
+        if kind == "po":
+            in_po = True
         if d[0] == "E":
             if seen_default and not star:
                 parts.append("*")
@@ -51,15 +74,17 @@ def source(params):
         else:
             seen_default = True
             parts.append("%s=%s" % (name, py_default(d)))
-    names = [n for n, _ in params]
+    if in_po:
+        parts.append("/")
+    names = [p[0] for p in params]
     return "def f(%s):\n    return dict(%s)\n" % (", ".join(parts), ", ".join("%s=%s" % (n, n) for n in names))
 
 
 _BODY_CACHE = {}
 
 
-def body_of(params):
-    src = source(params)
+def body_of(params, ctx=CTX):
+    src = source(params, ctx)
     fn = _BODY_CACHE.get(src)
     if fn is None:
         ns = {}
@@ -69,6 +94,11 @@ def body_of(params):
             _BODY_CACHE.clear()
         _BODY_CACHE[src] = fn
     return fn
+
+
+def shown(n):
+    """the command-line spelling arg_opts gives a parameter name"""
+    return dashed(n) if "_" in n else n
 
 
 def canon_val(v):
@@ -124,10 +154,23 @@ def coq_pdefault(d):
     raise ValueError(d)
 
 
-def mkcase(params, positional=None, optional=(), iterable=(), incrementable=(), auto=True):
-    return {"params": [[n, d] for n, d in params], "positional": positional,
-            "optional": list(optional), "iterable": list(iterable),
-            "incrementable": list(incrementable), "auto": auto}
+def mkcase(params, positional=None, optional=(), iterable=(), incrementable=(), auto=True, help=None, ctx=None):
+    c = {"params": [list(p) for p in params], "positional": positional,
+         "optional": list(optional), "iterable": list(iterable),
+         "incrementable": list(incrementable), "auto": auto}
+    if help:
+        c["help"] = [list(kv) for kv in help]      # the help= dict, in insertion order
+    if ctx and ctx != CTX:
+        c["ctx"] = ctx                             # name of the context parameter
+    return c
+
+
+def valid_layout(params, ctx=CTX):
+    try:
+        body_of(params, ctx)
+        return True
+    except SyntaxError:
+        return False
 
 
 class C09(Prop):
@@ -139,7 +182,9 @@ class C09(Prop):
     rule = ("real @task-style Task objects built with exec over a name vocabulary (shared prefixes, "
             "underscores, single letters, leading/trailing underscores, no_x forms) x default kinds "
             "(none, None, str, int, bool true/false, list) x decorator options (positional incl. reordered/"
-            "foreign/duplicate names, optional, iterable, incrementable, auto_shortflags); random up to 6 "
+            "foreign/duplicate names, optional, iterable, incrementable, auto_shortflags, help= keyed by the Python or "
+            "the command-line spelling incl. unknown and doubled keys) x the name of the context parameter x "
+            "parameter kinds (positional-only prefix, *args, **kwargs); random up to 6 "
             "parameters (quick) + exhaustive <=3 parameters over a 10-name vocabulary (thorough); "
             "non-trivial = at least two parameters or a non-default decorator option; distinct by the whole case")
     trusted_base = [
@@ -155,9 +200,9 @@ class C09(Prop):
         "parameters without default that follow defaulted ones are declared keyword-only (Python syntax demands it)",
     ]
     not_modelled = [
-        "help= texts and the unknown-help ValueError",
+        "the ignore_unknown_help escape (off by default)",
         "name=, aliases=, pre/post, default=, autoprint (no influence on the argument list)",
-        "callable objects other than plain functions; *args/**kwargs parameters",
+        "callable objects other than plain functions",
         "defaults of other types (float, tuple, custom classes): kind = type(default) is used as a factory",
         "values set by the parser (see C01/C07)",
     ]
@@ -187,7 +232,41 @@ class C09(Prop):
         iterable = pick(0.15) if rng.random() < 0.5 else []
         incrementable = pick(0.12) if rng.random() < 0.4 else []
         auto = rng.random() < 0.85
-        return mkcase(params, positional, optional, iterable, incrementable, auto)
+        # help= for a random subset, keyed by the Python or the command-line spelling
+        help_ = None
+        if rng.random() < 0.3:
+            help_ = []
+            for i, n in enumerate(names):
+                if rng.random() < 0.5:
+                    help_.append([n if rng.random() < 0.5 else shown(n), "help %d" % i])
+                    if "_" in n and shown(n) != n and rng.random() < 0.06:
+                        help_.append([shown(n) if help_[-1][0] == n else n, "twice"])
+            if rng.random() < 0.1:
+                help_.append([rng.choice(["nosuch", "zz_top", names[0] + "x"]), "unknown"])
+            rng.shuffle(help_)
+            seen = set()
+            help_ = [kv for kv in help_ if not (kv[0] in seen or seen.add(kv[0]))]
+        # parameter kinds: positional-only prefix, *args, **kwargs
+        if rng.random() < 0.1:
+            cand = [list(p) for p in params]
+            r2 = rng.random()
+            if r2 < 0.4:
+                for p in cand[:rng.randint(1, len(cand))]:
+                    p.append("po")
+            elif r2 < 0.7:
+                i = rng.randrange(len(cand))
+                cand[i] = [cand[i][0], ["E"], "va"]
+            elif r2 < 0.9:
+                cand[-1] = [cand[-1][0], ["E"], "vk"]
+            else:
+                cand = cand + [["args" if "args" not in names else "va_", ["E"], "va"],
+                               ["kwargs" if "kwargs" not in names else "vk_", ["E"], "vk"]]
+            if valid_layout(cand):
+                params = cand
+        ctx = CTX
+        if rng.random() < 0.3:
+            ctx = rng.choice([c for c in CTX_NAMES if c not in [p[0] for p in params]])
+        return mkcase(params, positional, optional, iterable, incrementable, auto, help_, ctx)
 
     def generate(self, rng, tier, n):
         for _ in range(n):
@@ -204,8 +283,10 @@ class C09(Prop):
             for n1, n2 in itertools.permutations(names, 2):
                 for d1, d2 in itertools.product(KINDS3, KINDS3):
                     yield mkcase([[n1, d1], [n2, d2]])
+            yield from self._help_and_kinds()
             return
         yield mkcase([])
+        yield from self._help_and_kinds()
         # one parameter: all kinds x every single decorator option
         for n1 in names:
             for d1 in DEFAULTS:
@@ -224,6 +305,33 @@ class C09(Prop):
                 yield mkcase(ps, auto=False)
 
     @staticmethod
+    def _help_and_kinds():
+        """help= under either spelling / unknown / both spellings; every context-parameter name; every
+        name of invoke's own call path as a parameter; positional-only, *args, **kwargs"""
+        for n in ("a", "a_b", "type_", "_a", "foo_bar"):
+            for key in {n, shown(n)}:
+                yield mkcase([["name", ["E"]], [n, ["S", "lib"]]], help=[[key, "text"]])
+                yield mkcase([[n, ["B", False]], ["b", ["I", 5]]], help=[["b", "B"], [key, "text"]], positional=["b"])
+            yield mkcase([[n, ["S", "x"]]], help=[["nosuch", "text"]])
+            yield mkcase([[n, ["S", "x"]]], help=[[n, "t"], ["nosuch", "text"]])
+            if shown(n) != n:
+                yield mkcase([[n, ["S", "x"]]], help=[[n, "one"], [shown(n), "two"]])
+        for ctx in CTX_NAMES:
+            yield mkcase([["a", ["E"]], ["b", ["I", 1]]], ctx=ctx)
+        for n in ("context", "self", "args", "kwargs", "task", "name", "c", "ctx", "body"):
+            for d in (["E"], ["S", "x"], ["B", True]):
+                yield mkcase([[n, d]])
+                yield mkcase([["a", ["E"]], [n, d]], ctx="c" if n != "c" else "ctx")
+        yield mkcase([["a", ["E"], "po"], ["b", ["I", 1]]])
+        yield mkcase([["a", ["I", 1], "po"], ["b", ["I", 1]]])
+        yield mkcase([["a", ["E"], "po"], ["b", ["E"], "po"]])
+        yield mkcase([["args", ["E"], "va"]])
+        yield mkcase([["a", ["I", 1]], ["rest", ["E"], "va"], ["k", ["E"]]])
+        yield mkcase([["kwargs", ["E"], "vk"]])
+        yield mkcase([["a", ["I", 1]], ["args", ["E"], "va"], ["kwargs", ["E"], "vk"]])
+        yield mkcase([["a", ["I", 1], "po"], ["kw", ["E"], "vk"]])
+
+    @staticmethod
     def _deco_variants(ns):
         yield {}
         yield {"auto": False}
@@ -238,13 +346,16 @@ class C09(Prop):
     def run_impl(self, case):
         from invoke.tasks import Task
         from invoke.parser import ParserContext
+        from invoke.parser.context import to_flag
 
-        params = [(n, d) for n, d in case["params"]]
-        body = body_of(params)
+        params = [list(p) for p in case["params"]]
+        ctxname = case.get("ctx", CTX)
+        help_ = dict((k, v) for k, v in case.get("help", []))
+        body = body_of(params, ctxname)
         try:
             t = Task(body, positional=case["positional"], optional=tuple(case["optional"]),
                      iterable=list(case["iterable"]), incrementable=list(case["incrementable"]),
-                     auto_shortflags=case["auto"])
+                     auto_shortflags=case["auto"], help=dict(help_))
             args = t.get_arguments()
             ctx = ParserContext(name="t", args=args)
         except Exception as e:  # noqa
@@ -257,8 +368,11 @@ class C09(Prop):
                                incrementable=list(case["incrementable"]), auto_shortflags=case["auto"])
             if case["positional"] is not None:
                 deco_kwargs["positional"] = case["positional"]
-            t2 = task_deco(**deco_kwargs)(body_of(params)) if (deco_kwargs != dict(
-                optional=(), iterable=[], incrementable=[], auto_shortflags=True)) else task_deco(body_of(params))
+            plain = deco_kwargs == dict(optional=(), iterable=[], incrementable=[], auto_shortflags=True) \
+                and not help_
+            if help_:
+                deco_kwargs["help"] = dict(help_)
+            t2 = task_deco(body_of(params, ctxname)) if plain else task_deco(**deco_kwargs)(body_of(params, ctxname))
             coll = Collection()
             coll.add_task(t2, name="t")
             ctx2 = coll.to_contexts()[0]
@@ -266,7 +380,7 @@ class C09(Prop):
             return {"err": "decorator-route:" + type(e).__name__}
 
         def table(c):
-            return ([(a.names, a.kind, a.default, a.positional, a.optional, a.incrementable, a.attr_name)
+            return ([(a.names, a.kind, a.default, a.positional, a.optional, a.incrementable, a.attr_name, a.help)
                      for a in c.args.values()],
                     sorted((k, v.names[0]) for k, v in dict.items(c.flags)), sorted(c.flags.aliases.items()),
                     sorted(c.inverse_flags.items()), [a.names[0] for a in c.positional_args],
@@ -286,23 +400,38 @@ class C09(Prop):
         o["positional"] = [a.names[0] for a in ctx.positional_args]
         kw = ctx.as_kwargs
         o["kwargs"] = [[k, canon_val(v)] for k, v in kw.items()]
+        # help texts: Argument.help, and the same through ParserContext.help_for / help_tuples
+        o["help"] = [[a.attr_name or a.name, a.help] for a in args]
+        if all(dashed(p[0]) != "" for p in params):
+            try:
+                shown_help = [ctx.help_for(to_flag(a.name))[1] for a in args]
+                if shown_help != [(a.help or "") for a in args] or len(ctx.help_tuples()) != len(args):
+                    return {"err": "help-tuples-differ"}
+            except Exception as e:  # noqa
+                return {"err": "help-tuples:" + type(e).__name__}
         try:
             inspect.signature(body).bind(object(), **kw)
             o["binds"] = True
         except TypeError:
             o["binds"] = False
-        # ... and the kwargs really reach the function through Executor.normalize + the Task call
+        # ... and the kwargs really reach the function through Executor.normalize + the Task call:
+        # every parameter receives the value meant for it (its own empty default for * / ** parameters)
+        calls = o["binds"]
         try:
             call = Executor(coll).normalize([ctx2])[0]
             got = call.task(Context(), *call.args, **call.kwargs)
-            if list(got.items()) != [(n, kw[n]) for n, _ in params] or call.called_as != "t":
-                o["binds"] = False
+            want = [(p[0], () if pkind(p) == "va" else {} if pkind(p) == "vk" else kw[p[0]]) for p in params]
+            if list(got.items()) != want or call.called_as != "t":
+                calls = False
         except TypeError:
-            o["binds"] = False
+            calls = False
+        except KeyError:
+            calls = False
+        o["calls"] = calls
         return {"ok": o}
 
     def to_coq(self, case, obs):
-        ps = ct.lst(["(mkParam %s %s)" % (ct.s(n), coq_pdefault(d)) for n, d in case["params"]])
+        ps = ct.lst(["(mkParam %s %s)" % (ct.s(p[0]), coq_pdefault(p[1])) for p in case["params"]])
         pos = ct.opt(None if case["positional"] is None else ct.strs(case["positional"]))
         deco = "(mkDeco %s %s %s %s %s)" % (pos, ct.strs(case["optional"]), ct.strs(case["iterable"]),
                                            ct.strs(case["incrementable"]), ct.b(case["auto"]))
@@ -321,22 +450,38 @@ class C09(Prop):
                 ct.strs(o["positional"]), kw, ct.b(o["binds"]),
                 ct.strs([a["kind_name"] for a in o["args"]]),
                 ct.lst([ct.b(a["takes_value"]) for a in o["args"]]))
-        return "(mk (mkSig %s %s) %s)" % (ps, deco, ct.result(obs, cli))
+        help_ = ct.lst([ct.pair(ct.s(k), ct.s(v)) for k, v in case.get("help", [])])
+        ho = ct.lst([ct.pair(ct.s(k), ct.opt(None if v is None else ct.s(v)))
+                     for k, v in (obs["ok"]["help"] if "ok" in obs else [])])
+        kn = {None: "PPlain", "po": "PPosOnly", "va": "PVarPos", "vk": "PVarKw"}
+        kinds = [kn[pkind(p)] for p in case["params"]]
+        kinds = ct.lst(kinds if any(k != "PPlain" for k in kinds) else [])
+        calls = ct.b(obs["ok"]["calls"] if "ok" in obs else True)
+        return "(mk (mkSig %s %s) %s %s %s %s %s)" % (ps, deco, ct.result(obs, cli), help_, ho, kinds, calls)
 
     # ------------------------------------------------------------- reporting
     def nontrivial(self, case, obs):
         return len(case["params"]) >= 2 or case["positional"] is not None or bool(
-            case["optional"] or case["iterable"] or case["incrementable"]) or not case["auto"]
+            case["optional"] or case["iterable"] or case["incrementable"] or case.get("help")) or \
+            not case["auto"] or any(len(p) > 2 for p in case["params"])
 
     def classify(self, case, obs):
         n = len(case["params"])
         if "err" in obs:
-            return "params=%d:err:%s" % (n, obs["err"])
+            return "params=%d:err:%s%s" % (n, obs["err"], ":help" if case.get("help") else "")
         shorts = sum(1 for a in obs["ok"]["args"] if len(a["names"]) > 1)
-        return "params=%d:shorts=%d:inv=%d" % (n, min(shorts, 3), min(len(obs["ok"]["inverse"]), 2))
+        extra = ""
+        if case.get("help"):
+            extra += ":help=%d" % sum(1 for _, h in obs["ok"]["help"] if h is not None)
+        ks = sorted({pkind(p) for p in case["params"]} - {None})
+        if ks:
+            extra += ":kinds=" + "+".join(ks)
+        if case.get("ctx"):
+            extra += ":ctx=" + case["ctx"]
+        return "params=%d:shorts=%d:inv=%d%s" % (n, min(shorts, 3), min(len(obs["ok"]["inverse"]), 2), extra)
 
     def finding_of(self, case, obs):
-        names = [n for n, _ in case["params"]]
+        names = [p[0] for p in case["params"]]
         ds = [dashed(n) for n in names]
         clash = len(set(ds)) < len(ds)
         if "err" in obs:
@@ -345,17 +490,50 @@ class C09(Prop):
             return None
         if any(d == "" for d in ds):
             return "F-C09b"
-        for (p, d) in case["params"]:
-            if d == ["B", True] and p not in case["optional"] and ("no-" + dashed(p)) in ds:
+        for p in case["params"]:
+            if p[1] == ["B", True] and p[0] not in case["optional"] and ("no-" + dashed(p[0])) in ds:
                 return "F-C09d"
+        o = obs["ok"]
+        if not (o["binds"] and o["calls"]):
+            kinds = [pkind(p) for p in case["params"]]
+            if "po" in kinds:
+                return "F-C09f"
+            if "va" in kinds or "vk" in kinds:
+                return "F-C09g"
+            if "self" in names:
+                return "F-C09e"
         return None
 
     def shrink_candidates(self, case):
         ps = case["params"]
-        names = [n for n, _ in ps]
+        names = [p[0] for p in ps]
+        if case.get("ctx"):
+            c = dict(case)
+            del c["ctx"]
+            if valid_layout(c["params"]) and CTX not in names:
+                yield c
+        if case.get("help"):
+            c = dict(case)
+            del c["help"]
+            yield c
+            for i in range(len(case["help"])):
+                yield dict(case, help=case["help"][:i] + case["help"][i + 1:])
+        if any(len(p) > 2 for p in ps):
+            c = dict(case, params=[p[:2] for p in ps])
+            if valid_layout(c["params"], case.get("ctx", CTX)):
+                yield c
+        yield from (c for c in self._shrink_basic(case) if valid_layout(c["params"], c.get("ctx", CTX)))
+
+    def _shrink_basic(self, case):
+        ps = case["params"]
+        names = [p[0] for p in ps]
         for i in range(len(ps)):
             gone = ps[i][0]
             c = dict(case, params=ps[:i] + ps[i + 1:])
+            if case.get("help"):
+                c["help"] = [kv for kv in case["help"] if kv[0] not in (gone, shown(gone))]
+                if not c["help"]:
+                    del c["help"]
             for k in ("optional", "iterable", "incrementable"):
                 c[k] = [x for x in case[k] if x != gone]
             if case["positional"] is not None:
@@ -370,13 +548,16 @@ class C09(Prop):
                     yield dict(case, **{k: [y for y in case[k] if y != x]})
         if not case["auto"]:
             yield dict(case, auto=True)
-        for i, (n, d) in enumerate(ps):
+        for i, p in enumerate(ps):
+            n, d, rest = p[0], p[1], p[2:]
             for d2 in (["E"], ["N"], ["B", False]):
                 if d != d2 and d[0] not in ("E",) and len(d2) <= len(d):
-                    yield dict(case, params=ps[:i] + [[n, d2]] + ps[i + 1:])
+                    yield dict(case, params=ps[:i] + [[n, d2] + rest] + ps[i + 1:])
             for n2 in ("a", "b", "ab"):
-                if n2 not in names and len(n2) < len(n):
-                    c = dict(case, params=ps[:i] + [[n2, d]] + ps[i + 1:])
+                if n2 not in names and len(n2) < len(n) and n2 != case.get("ctx"):
+                    c = dict(case, params=ps[:i] + [[n2, d] + rest] + ps[i + 1:])
+                    if case.get("help"):
+                        c["help"] = [[n2 if k in (n, shown(n)) else k, v] for k, v in case["help"]]
                     for k in ("optional", "iterable", "incrementable"):
                         c[k] = [n2 if x == n else x for x in case[k]]
                     if case["positional"] is not None:
@@ -390,20 +571,21 @@ class C09(Prop):
             r = rng.random()
             if r < 0.35 and ps:
                 i = rng.randrange(len(ps))
-                c["params"] = ps[:i] + [[ps[i][0], rng.choice(DEFAULTS)]] + ps[i + 1:]
+                c["params"] = ps[:i] + [[ps[i][0], rng.choice(DEFAULTS)] + ps[i][2:]] + ps[i + 1:]
             elif r < 0.6:
                 n = rng.choice(VOCAB)
-                if n not in [x for x, _ in ps]:
+                if n not in [x[0] for x in ps] and n != case.get("ctx"):
                     i = rng.randint(0, len(ps))
                     c["params"] = ps[:i] + [[n, rng.choice(DEFAULTS)]] + ps[i:]
             elif r < 0.7:
                 c["auto"] = not case["auto"]
             elif r < 0.8 and ps:
-                c["positional"] = rng.sample([n for n, _ in ps], rng.randint(0, len(ps)))
+                c["positional"] = rng.sample([x[0] for x in ps], rng.randint(0, len(ps)))
             elif ps:
                 k = rng.choice(["optional", "iterable", "incrementable"])
                 c[k] = [rng.choice(ps)[0]]
-            yield c
+            if valid_layout(c["params"], c.get("ctx", CTX)):
+                yield c
 
 
 PROP = C09()
